@@ -22,7 +22,7 @@ RULE = ("Engine 'pca': Hypothesis draws an image stack (N in k+1..40 images of s
         "> 500 features, or N > k + 10.")
 RULE += (" " + 'Also: int16 stacks, boolean masks, row subsets in any order with repeats. Round 7: data class `unbalanced` (150-170 images, one abundant and two 2-image classes 17 sigma apart, which k-means only separates with its several initialisations); loader engine with molecules in random orientations and a tilt range: the singular values must be those of the wedge-masked differences computed molecule by molecule with a fresh model.')
 TOLERANCES = {"singular values": "rtol 1e-3 (float32 data)", "components": "|cos| >= 1 - 1e-3 (gap >= 1%)",
-              "projections": "2e-3 * sigma_1", "orthonormality": "1e-4"}
+              "projections": "5e-4 * sigma_1 (self-consistency with the reported components; 2e-3 against the exact SVD)", "orthonormality": "1e-4"}
 ASSUMPTIONS = ["k-means separation is only asserted for planted clusters whose centres are >= 12 noise sigmas apart"]
 
 
@@ -59,7 +59,7 @@ def make_stack(d):
         X = rng.standard_normal((n,) + shape) * np.linspace(1.0, 3.0, n)[:, None, None, None]
     if d.get("stack_dtype", "float32") == "int16":
         # integer-valued stack (e.g. raw int16 sub-volumes): PCA of exactly these values
-        return np.round(X * 20.0).astype(np.int16), labels
+        return np.round(X * 4.0).astype(np.int16), labels
     return X.astype(np.float32), labels
 
 
@@ -128,7 +128,7 @@ def judge_pca(d):
     if not np.abs(G - np.eye(k)).max() <= 1e-3:
         out.append(viol("C18/not-orthonormal", f"{tag}: components are not orthonormal (max dev {np.abs(G - np.eye(k)).max():.3g})"))
     want_tr = C @ comps.T
-    if not np.abs(tr - want_tr).max() <= 2e-3 * s1:
+    if not np.abs(tr - want_tr).max() <= 5e-4 * s1:
         out.append(viol("C18/transform-inconsistent", f"{tag}: get_transform() != (X - mean) @ components.T (max dev {np.abs(tr - want_tr).max():.3g}, sigma1 {s1:.3g})"))
     if not np.all(sv <= S[:k] * (1 + 1e-3) + 1e-4 * s1):
         out.append(viol("C18/singular-values-too-large", f"{tag}: singular values {sv.tolist()} exceed the exact ones {S[:k].tolist()}"))
@@ -185,7 +185,7 @@ def judge_pca(d):
                 out.append(viol(f"C18/transform-raises:{type(e).__name__}", f"{tag}: transform({name} batch of {len(batch)}) raised {type(e).__name__}: {str(e)[:150]}"))
                 break
         want_b = ((batch.astype(np.float64) * mk).reshape(len(batch), -1) - mean) @ comps.T
-        if got.shape != want_b.shape or not np.abs(got - want_b).max() <= 2e-3 * s1:
+        if got.shape != want_b.shape or not np.abs(got - want_b).max() <= 5e-4 * s1:
             dev = float(np.abs(got - want_b).max()) if got.shape == want_b.shape else float("inf")
             out.append(viol(f"C18/transform-new-images:{name}", f"{tag}: transform({name} batch, rows {sub}) != (batch*mask - training mean) @ components.T "
                             f"(max dev {dev:.3g}, sigma1 {s1:.3g})"))
